@@ -238,7 +238,7 @@ def rule_r1(repo: Repo, res: Result) -> None:
         res.add("C04.R1", f"{tag}::source root of the scan <- root_path", ok, "module names are computed relative to root_path" if ok else f"the scanner's source root is `{show_loc(got) if got is not None else '?'}`, not root_path: module names no longer start at the root directory", where(ctor.fi, ctor.node), kind="flow")
         filt = b.get(names[0]) if names else None
         pl = _param_leaves(filt, ge) if filt is not None else set()
-        _options_obligation(res, f"{tag}::file filter <- exclusions / regex_exclusions", pl, {"exclusions", "regex_exclusions"}, "the scan filter", ctor)
+        _options_obligation(res, f"{tag}::file filter <- exclusions / regex_exclusions", pl, {"exclusions", "regex_exclusions"}, "the scan filter", ctor, filt)
         start = [e for e in tr2.events if e.kind == "call" and e.name == "parse" and e.recv == ctor.result]
         if len(start) == 1:
             got = loc(start[0].arg(0)) if start[0].arg(0) is not None else None
@@ -253,7 +253,7 @@ def rule_r1(repo: Repo, res: Result) -> None:
         res.add("C04.R1", f"{tag}::external filter flag <- exclude_external_libraries", ok, "the flag is forwarded" if ok else f"the external-import filter receives `{show(a0, 60) if a0 is not None else '?'}` as its flag", where(ext.fi, ext.node), kind="flow")
         a2 = ext.arg(2, "external_exclusions")
         pl = _param_leaves(a2, ge) if a2 is not None else set()
-        _options_obligation(res, f"{tag}::external filter patterns <- external_exclusions / regex_external_exclusions", pl, {"external_exclusions", "regex_external_exclusions"}, "the patterns of the external-import filter", ext)
+        _options_obligation(res, f"{tag}::external filter patterns <- external_exclusions / regex_external_exclusions", pl, {"external_exclusions", "regex_external_exclusions"}, "the patterns of the external-import filter", ext, a2)
     g = single("NetworkxGraph", "graph construction")
     if g is not None:
         a2 = g.arg(2, "level_limit")
@@ -265,11 +265,18 @@ def rule_r1(repo: Repo, res: Result) -> None:
         res.add("C04.R1", f"{tag}::graph modules <- scan result", ok, "the graph is built from the scanned modules" if ok else "the module list of the graph does not come from the scan", where(g.fi, g.node), kind="flow")
 
 
-def _options_obligation(res: Result, key: str, got: set[str], want: set[str], what: str, e: Event) -> None:
+def _has_lost_parts(t: Term | None) -> bool:
+    """The value contains parts the executor could not follow (loop-carried values, results of unknown calls)."""
+    return t is not None and any(x[0] in ("unk", "loopvar") for x in subterms(t))
+
+
+def _options_obligation(res: Result, key: str, got: set[str], want: set[str], what: str, e: Event, value: Term | None = None) -> None:
     """The value is computed from exactly the options `want`. An option that is missing is a violation; additional options
     (e.g. both pattern kinds converted by one shared comprehension) cannot be judged on the level of 'depends on'."""
     if got == want:
         res.add("C04.R1", key, True, f"{what} is built from {' / '.join(sorted(want))}", where(e.fi, e.node), kind="flow")
+    elif not want <= got and _has_lost_parts(value):
+        res.undecide("C04.R1", key, f"cannot follow how {what} is computed (`{show(value, 100)}`)", where(e.fi, e.node))
     elif not want <= got:
         res.add("C04.R1", key, False, f"{what} is built from {sorted(got) or 'no option'} instead of {' / '.join(sorted(want))}", where(e.fi, e.node), kind="flow")
     else:
@@ -906,6 +913,12 @@ def rule_r4(repo: Repo, res: Result) -> None:
         if best is None or cand[0] < best[0]:
             best = cand
     ctag = f"{tag}::ancestors of every scanned module: nodes and consecutive parent->child hierarchy edges"
+    if best is None:
+        rec = _recursive_hierarchy(sx, tr, names, gpm, graph, config, node_events, edge_events)
+        if rec is not None:
+            ok_r, detail_r, e_r = rec
+            res.add("C04.R4", ctag, ok_r, detail_r, where(e_r.fi, e_r.node), kind="structural")
+            return
     if best is None and unreadable:
         e, chain = unreadable[0]
         res.undecide("C04.R4", ctag, f"the ancestors linked by `{norm(e.node, 60)}` are `{show(chain, 100)}`: not computed by get_parent_modules, cannot tell whether they are all ancestors", where(e.fi, e.node))
@@ -927,6 +940,61 @@ def rule_r4(repo: Repo, res: Result) -> None:
         problems = problems + [f"the ancestor nodes are not created for every scanned module: {parents_why}"]
     ok = not problems
     res.add("C04.R4", ctag, ok, "every scanned module is linked to all its ancestors: each consecutive (ancestor, descendant) pair gets a node and an inherits=True edge" if ok else "scanned modules are not linked to all their ancestors: " + "; ".join(problems), where(e.fi, e.node), kind="structural")
+
+
+def _recursive_hierarchy(sx: SymX, tr: Trace, names: "_Names", gpm: FuncInfo, graph: Term, config: set[str], node_events, edge_events):
+    """The hierarchy written as a structural recursion over the ancestors:
+
+        def link(parents, child):
+            if not parents: return
+            *rest, parent = parents
+            link(rest, parent); create_node(parent); create_edge(parent, child, inherits=True)
+
+    By induction on len(parents) this creates a node for every ancestor and links every consecutive pair of parents + [child].
+    Returns (verdict, detail, event) or None when the construction does not have this shape."""
+
+    def last_parent(t: Term):
+        for x in subterms(t):
+            if x[0] == "idx" and is_const(x[2], -1) and x[1][0] == "call" and x[1][1] == ("fn", gpm.fq) and len(x[1][2]) == 1:
+                return x[1], x[1][2][0]
+        return None
+
+    for e, a, b, inh in edge_events:
+        lp = last_parent(a)
+        if lp is None:
+            continue
+        parents, mod = lp
+        sym = names.symbol(mod)
+        if sym is None or sym[0] != "SCANNED" or [s_[1] for s_ in names.sources(b)] != [mod] or last_parent(b) is not None:
+            continue
+        rest = ("slice", parents, ("const", None), ("const", -1), ("const", None))
+        calls = [r for r in tr.events if r.kind == "call" and r.func[0] == "fn" and r.func[1] in e.stack and rest in r.args and ("idx", parents, ("const", -1)) in r.args]
+        if not calls:
+            continue
+        problems = []
+
+        def only_needs_ancestors(ev: Event, what: str) -> None:
+            f = f_and(ev.pc)
+            free = _graph_state_atoms(sx, f, graph, config, tuple(ev.args[:2]) if ev.name == "add_edge" else ())
+            free |= {k for k in atoms_of(f) if sx.atoms.get(k) == parents}  # `if parents:` - there is an ancestor at all
+            fixed = {k: (ev.name == "add_edge") for k in free if (t_ := sx.atoms.get(k)) is not None and _is_node_test(t_, graph)}
+            fixed.update({k: False for k in free if (t_ := sx.atoms.get(k)) is not None and (_is_edge_test(t_, graph) or t_[0] == "cmp" and t_[1] == "==")})
+            f2 = simplify(substitute(f, {k: v for k, v in fixed.items() if not (sx.atoms[k][0] == "cmp" and sx.atoms[k][1] == "is")}))
+            if not _holds_whenever_state_allows(f2, free - set(fixed)):
+                problems.append(f"{what} additionally depends on `{' , '.join(sorted(x for x in atoms_of(f2) if x not in free))[:160]}`")
+
+        only_needs_ancestors(e, "the hierarchy edge")
+        only_needs_ancestors(calls[0], "the recursive step")
+        if not (inh is not None and is_const(inh, True)):
+            problems.append(f"the edge is created with inherits={show(inh, 30) if inh is not None else 'its default'}, not inherits=True")
+        nodes = [ne for ne, na in node_events if last_parent(na) == lp]
+        if not nodes:
+            problems.append("no node is created for the direct parent in each step (ancestor packages without own files are missing)")
+        else:
+            only_needs_ancestors(nodes[0], "the creation of the ancestor's node")
+        ok = not problems
+        return ok, "every scanned module is linked to all its ancestors by a recursion over get_parent_modules(module): each step creates the last ancestor's node and links it to its child with inherits=True" if ok else "scanned modules are not linked to all their ancestors: " + "; ".join(problems), e
+    return None
 
 
 def _sym_pos(names: _Names, t: Term):
